@@ -27,7 +27,7 @@ SAN_ENV = {
     "ASAN_OPTIONS": "abort_on_error=1:halt_on_error=1:detect_leaks=0:"
                     "detect_stack_use_after_return=1:strict_string_checks=1:"
                     "allocator_may_return_null=1:max_malloc_fill_size=0",
-    "UBSAN_OPTIONS": "print_stacktrace=1:halt_on_error=1",
+    "UBSAN_OPTIONS": "print_stacktrace=1",
 }
 
 BASE_ENV = {
@@ -50,6 +50,12 @@ class Res:
         return self.sig is not None and not self.cpu_exceeded and not self.timed_out
 
 
+# UBSan `bounds` reports that are NOT buffer overruns: the Hijri month-begin
+# table _bom[133][12] is deliberately indexed [y][12] to reach [y+1][0] (the
+# rows are contiguous, the last row is guarded); the access stays inside the
+# one table object, so no property is violated.
+BENIGN_UB = [(b"ummulqura.c", b"index 12 out of bounds for type 'uint32_t [12]'")]
+
 _FRAME = re.compile(rb"#\d+ 0x[0-9a-f]+ in (\S+) (\S+?):\d+")
 
 
@@ -70,10 +76,13 @@ def san_signature(err):
         if m.group(1) == b"SEGV":
             kind = "asan:SEGV"
     else:
-        m = re.search(rb"runtime error: ([a-z ]+)", err)
-        if m:
-            w = m.group(1).decode().strip().split()
-            kind = "ubsan:" + "-".join(w[:3])
+        for m in re.finditer(rb"([^\n/]*\.[chyl]):\d+:\d+: runtime error: ([^\n]*)", err):
+            if any(f == m.group(1) and pat in m.group(2) for f, pat in BENIGN_UB):
+                continue
+            w = m.group(2).decode("latin-1").strip().split()
+            kind = "ubsan:" + "-".join(x for x in w[:4] if not x.lstrip("-").isdigit())
+            err = err[m.start():]
+            break
     if kind is None:
         return None
     func = "?"
@@ -219,6 +228,22 @@ class Shard:
             self.viol[sig] = dict(desc=desc, replay=replay or {}, count=1)
         else:
             v["count"] += 1
+
+    def check_san(self, r, monitor, prefix, what=""):
+        """record a sanitizer/probe report or a death signal of process result r;
+        returns the kind (or None when the process was clean)"""
+        kind = r.san_kind()
+        if kind is None and r.sig is not None:
+            kind = "cpu-limit" if r.cpu_exceeded else "wall-timeout" if r.timed_out else "signal%d" % r.sig
+        if kind is None:
+            return None
+        if r.timed_out and not r.cpu_exceeded and r.san_kind() is None:
+            # wall-clock watchdog only: inconclusive, never a verdict
+            self.extra["inconclusive_wall_timeouts"] += 1
+            return kind
+        self.bad(monitor, "%s:%s" % (prefix, kind), "%s %s: %s" % (what, kind, shq(r.argv)[:300]),
+                 res_replay(r))
+        return kind
 
     def sample(self, s, cap=6):
         if len(self.samples) < cap:
